@@ -596,7 +596,7 @@ def _worker(args):
     return [(h,) + run_history(model, h) for h in hists]
 
 
-@rule("SV", ["C06", "C10", "C09", "C11", "C03"], "structs with dynamic fields and arrays of them: after every history of {update, field/item assignment, copy, refused assignment} every kept handle agrees with a fresh view, reads the expected values, and nothing outside the target changed")
+@rule("SV", ["C06", "C10", "C09", "C11", "C03", "C05"], "structs with dynamic fields and arrays of them: after every history of {update, field/item assignment, copy, refused assignment} every kept handle agrees with a fresh view, reads the expected values, and nothing outside the target changed")
 def sv(cx):
     m = cx.m
     for _mod in ('struct', 'array', 'string', 'scalar', 'typeutils'):
@@ -606,7 +606,8 @@ def sv(cx):
     maxlen = 3 if cx.tier == "thorough" else 2
     hs = [h for n in range(1, maxlen + 1) for h in itertools.product(list(OPS), repeat=n)]
     # C11 (refusals without side effects) and C09 (copies): the quick tier keeps the histories that END in such an operation
-    focus = {"C11": ("too-long", "str-item-too-long", "str-update-other-size", "update-dict-refused-late", "array-update-refused-late"), "C09": ("copy-then-update-copy", "copy-to-other-buffer", "str-copy")}.get(cx.prop)
+    focus = {"C11": ("too-long", "str-item-too-long", "str-update-other-size", "update-dict-refused-late", "array-update-refused-late"), "C09": ("copy-then-update-copy", "copy-to-other-buffer", "str-copy"),
+             "C05": ("update-dict-refused-late", "array-update-refused-late", "str-update-other-size")}.get(cx.prop)
     if focus and cx.tier != "thorough":
         hs = [h for h in hs if h[-1] in focus]
         cx.partial = True
